@@ -68,7 +68,7 @@ Proof. exact half_cell_off. Qed.
 Print Assumptions C14_half_cell_shift_rejected.
 
 Example C14_half_cell_shift_rejected_nonvacuous : 0 < 1 /\ 0 <= align_tol /\ 2 * align_tol < 1.
-Proof. unfold align_tol. repeat split; lra. Qed.
+Proof. unfold align_tol, Constants_gen.align_tolerance_default. repeat split; lra. Qed.
 
 Theorem C14_whole_cells_pass : forall (tol c : Q) (k : Z), 0 < c -> 0 <= tol ->
   bad_rem tol c (inject_Z k * c) = false.
